@@ -204,6 +204,36 @@ func Discharge(obls []*Obligation, tier Tier) {
 		}(i, j)
 	}
 	wg.Wait()
+	// ---- phase 3 (quick tier): what is still undecided is retried with four times the budget and little
+	// parallelism, so that a loaded machine does not turn a slow query into an alarm
+	if !tier.Agree {
+		var again []int
+		for i, j := range redo {
+			if j.status != "sat" && j.status != "unsat" {
+				again = append(again, i)
+			}
+		}
+		if len(again) > 0 && len(again) <= 64 {
+			sem3 := make(chan struct{}, 4)
+			var wg3 sync.WaitGroup
+			for _, i := range again {
+				wg3.Add(1)
+				sem3 <- struct{}{}
+				go func(i int) {
+					defer wg3.Done()
+					defer func() { <-sem3 }()
+					j := redo[i]
+					r := Solve(scripts[i], 4*tier.TimeoutS)
+					if r.Status == "sat" || r.Status == "unsat" {
+						j.res = r
+						j.status, j.solver = r.Status, r.Solver
+					}
+					j.seconds += r.Seconds
+				}(i)
+			}
+			wg3.Wait()
+		}
+	}
 	if traceOn {
 		n := map[string]int{}
 		for _, j := range jobs {
